@@ -81,6 +81,25 @@ pub fn gen_notes(rng: &mut Rng, n: usize, thorough: bool) -> Vec<Case> {
             }
         }
     }
+    // typed reading needs the exact name "GNU\0": every near miss (no NUL, extra NULs, case, prefix/suffix, leading NUL)
+    // with each typed n_type, descriptors shorter and longer than an ABI tag, followed by a marker record
+    {
+        let near: [&[u8]; 10] = [b"GNU", b"GNU\0\0", b"GNU\0\0\0\0\0", b"GNU\0", b"gnu\0", b"GNUX\0", b"\0GNU\0", b"GN\0", b"GNU\0G", b"GNU "];
+        for (i, nm) in near.iter().enumerate() {
+            for ty in [1u32, 3, 2, 0x100] {
+                for dl in [0usize, 4, 16, 20] {
+                    let le = (i + dl) % 2 == 0;
+                    let align = if i % 3 == 0 { 8 } else { 4 };
+                    let notes = vec![
+                        NoteSpec { n_type: ty, name: nm.to_vec(), desc: (0..dl as u8).collect() },
+                        NoteSpec { n_type: 9, name: b"mark\0".to_vec(), desc: vec![1, 2, 3] },
+                    ];
+                    let data = build_notes(le, align, &notes);
+                    out.push((format!("notes {} {} {} {}", le as u8, cls(i % 2 == 0), align, hex(&data)), "wf=1|near-gnu".into()));
+                }
+            }
+        }
+    }
     for _ in 0..n {
         let le = rng.below(2) == 0;
         let is64 = rng.below(2) == 0;
@@ -362,6 +381,61 @@ pub fn gen_hash(kind: &str, rng: &mut Rng, n: usize, thorough: bool) -> Vec<Case
             out.push((format!("gnu {} {} {} {} {} {}", le as u8, cls(is64), hex(&symtab), hex(&strtab), hex(&q), hex(&h)), "wf=0|adversarial".into()));
         }
     }
+    // directed soundness cases for both kinds, on a table that lets every query reach every symbol (one bucket, all
+    // symbols on its chain/run; GNU: bloom all ones and each chain word forged to the query's hash):
+    //  (a) a queried name with an interior NUL that equals two adjacent string-table entries read as one byte run;
+    //  (b) candidates whose name cannot be read (st_name out of range, unterminated tail, empty string table) queried
+    //      with the empty name and with an ordinary one — an unreadable name is an error or a non-match, never a hit.
+    for k in 0..12usize {
+        let is64 = k % 2 == 0;
+        let le = k % 3 != 0;
+        let names: Vec<Vec<u8>> = vec![vec![], b"memset".to_vec(), b"memcpy".to_vec(), b"use_memset".to_vec(), b"zz".to_vec()];
+        let (mut strtab, mut offs) = build_strtab(&names);
+        let syms: Vec<SymSpec> = names.iter().enumerate().map(|(i, n)| default_sym(n, i)).collect();
+        let mut queries: Vec<Vec<u8>> = vec![];
+        let ann;
+        if k < 6 {
+            let target = 1 + k % 3;
+            let mut q = names[target].clone();
+            q.push(0);
+            q.extend(&names[target + 1]);
+            if k >= 3 { q.push(0); q.extend(&names[(target + 2).min(4)]); }
+            queries.push(q);
+            queries.push(names[4].clone());
+            ann = "wf=0|forged-nul";
+        } else {
+            let victim = 1 + k % 4;
+            match k % 3 {
+                0 => { offs[victim] = strtab.len() as u32 + 5; }
+                1 => { strtab.pop(); strtab.extend(b"tail"); offs[victim] = strtab.len() as u32 - 4; }
+                _ => { strtab.clear(); }
+            }
+            queries.push(vec![]);
+            queries.push(b"tail".to_vec());
+            queries.push(names[victim].clone());
+            ann = "wf=0|unreadable-name";
+        }
+        let symtab = build_symtab(is64, le, &syms, &offs);
+        for q in queries {
+            let mut h = vec![];
+            if gnu {
+                let hq = ref_gnu_hash(&q);
+                put(&mut h, le, 4, 1); put(&mut h, le, 4, 1); put(&mut h, le, 4, 1); put(&mut h, le, 4, (k % 7) as u64);
+                put(&mut h, le, if is64 { 8 } else { 4 }, u64::MAX);
+                put(&mut h, le, 4, 1);
+                for i in 1..names.len() {
+                    let stop = if i + 1 == names.len() { 1 } else { 0 };
+                    put(&mut h, le, 4, ((hq & !1) | stop) as u64);
+                }
+            } else {
+                put(&mut h, le, 4, 1);
+                put(&mut h, le, 4, names.len() as u64);
+                put(&mut h, le, 4, 1);
+                for i in 0..names.len() { put(&mut h, le, 4, if i == 0 || i + 1 == names.len() { 0 } else { (i + 1) as u64 }); }
+            }
+            out.push((format!("{} {} {} {} {} {} {}", kind, le as u8, cls(is64), hex(&symtab), hex(&strtab), hex(&q), hex(&h)), ann.into()));
+        }
+    }
     out
 }
 
@@ -537,6 +611,39 @@ pub fn gen_symver(rng: &mut Rng, n: usize, thorough: bool) -> Vec<Case> {
         let count = *rng.pick(&[0u64, 1, nrec as u64, nrec as u64 + 3, 0xffff, 0xffff_ffff, u64::MAX]);
         let off = *rng.pick(&[0u64, 0, 0, sz as u64, 1, buf.len() as u64, u64::MAX, u64::MAX - 15, (1 << 63) + 3]);
         out.push((format!("verit {} {} 64 {} {} {}", kind, le as u8, count, off, hex(&buf)), "-".into()));
+    }
+    // directed (C16): a record of an unknown revision, alone or behind a good record, with every kind of next link,
+    // under absurd declared counts; and zero-filled sections — the work must not depend on the declared count
+    for (kind, ty, sz) in [("def", "VerDef", 20usize), ("need", "VerNeed", 16)] {
+        for le in [true, false] {
+            for badver in [0u64, 2, 0xffff] {
+                for next in [0u64, sz as u64, 1, 0xffff_ffff] {
+                    for behind_good in [false, true] {
+                        let lay = layout(ty, false);
+                        let rec = |ver: u64, nx: u64| -> Vec<u8> {
+                            let vals: Vec<u64> = lay.iter().map(|f| match f.0 {
+                                "vd_version" | "vn_version" => ver,
+                                "vd_next" | "vn_next" => nx,
+                                "vd_aux" | "vn_aux" => 0,
+                                "vd_cnt" | "vn_cnt" => 0,
+                                _ => 7,
+                            }).collect();
+                            encode(ty, false, le, &vals)
+                        };
+                        let mut buf = vec![];
+                        if behind_good { buf.extend(rec(1, sz as u64)); }
+                        buf.extend(rec(badver, next));
+                        buf.extend(rec(1, 0));
+                        for count in [0xffff_ffffu64, u64::MAX, 1 << 40] {
+                            out.push((format!("verit {} {} 64 {} 0 {}", kind, le as u8, count, hex(&buf)), "adversarial|unknown-revision".into()));
+                        }
+                    }
+                }
+            }
+            for len in [sz, 3 * sz, 200] {
+                out.push((format!("verit {} {} 64 {} 0 {}", kind, le as u8, u64::MAX, hex(&vec![0u8; len])), "adversarial|zero-filled".into()));
+            }
+        }
     }
     out
 }
